@@ -60,6 +60,13 @@ MkChan(opener, anchors, taproot, dustA, dustB, balA, balB, cfee) ==
                           their |-> IF p = "A" THEN balB ELSE balA,
                           cfee  |-> cfee]]]
 
+\* the channel used where only the negotiation matters: anchors, equal dust limits, both sides far from dust
+MidChan(o, tap) ==
+  LET ob == 1000 * ((Capacity \div 2) - 6744 - 2 * AnchorSize)
+      nb == 1000 * (Capacity \div 2) IN
+  MkChan(o, TRUE, tap, 354, 354, IF o = "A" THEN ob ELSE nb, IF o = "A" THEN nb ELSE ob, 6744)
+Max(a, b) == IF a > b THEN a ELSE b
+
 NegIdle == /\ ideal = [p \in P |-> 0] /\ maxfee = [p \in P |-> 0] /\ last = [p \in P |-> 0]
            /\ prior = [p \in P |-> {}] /\ done = [p \in P |-> 0]
            /\ msg = 0 /\ turn = "A" /\ rounds = 0 /\ err = ""
@@ -229,6 +236,8 @@ TxInvariants == Synced => (ExactBalance /\ DustOmitted /\ Conservation /\ Refusa
 
 \* --- negotiation ---
 Bounded == rounds <= MaxRounds
+\* within the default caps (ideal fees at most 3x apart) a negotiation takes at most 13 messages
+BoundedDefault == (ideal["A"] <= 3 * ideal["B"] /\ ideal["B"] <= 3 * ideal["A"]) => rounds <= 13
 \* whoever finished, finished on a fee both parties signed
 BothSigned == \A p \in P : done[p] # 0 => (done[p] \in prior[p] /\ done[p] \in prior[Other(p)])
 Agree == (done["A"] # 0 /\ done["B"] # 0) => (done["A"] = done["B"] /\ tx["A"] = tx["B"] /\ tx["A"].res = "ok")
